@@ -36,7 +36,7 @@ func init() {
 		}
 		Configs["flat-"+m] = Config{Name: "flat-" + m, NoExtras: true, Props: append([]Prop{
 			{Name: "fl", Type: models.IndexTypeVectorFlat, Metric: m, Dim: dim}}, filt...)}
-		Configs["vamana-"+m] = Config{Name: "vamana-" + m, NoExtras: true, Props: append([]Prop{
+		Configs["vamana-"+m] = Config{Name: "vamana-" + m, NoExtras: true, PVec: 0.6, Props: append([]Prop{
 			{Name: "v", Type: models.IndexTypeVectorVamana, Metric: m, Dim: dim, SearchSize: 75, DegreeBound: 32, Alpha: 1.2}}, filt...)}
 	}
 	Configs["text"] = Config{Name: "text", NoExtras: true, Props: append([]Prop{
